@@ -38,6 +38,7 @@ FIXED = [
     ('/<a:int><b:int>', '1-0'),
     ('/<a:re:[^0]+><b:int>', 'x007'),
     ('/<p:float>.<q>', '-3.0.00001'),
+    ('/<p:float>.5', '100000000000000000000000.0.5'),
     ('/<q:float>', '10000000000000000'),
     ('/<q:float>', '0.00001'),
     ('/foo/{:re(to.)}/bar{some.int()}/{other}/end', 'foo/tok/bar5/other/end'),
@@ -581,6 +582,21 @@ class Oracle:
                 return ('C19:url:float-overflow-inf',
                         f'float wildcard {i} matched a text beyond the double range (value {v!r}); its formatted '
                         f'text {prt!r} fails the sanity check of url(): {ctx}')
+            if style == 'placed':
+                # refused where it stands: because of the text itself, or because of what follows it?
+                try:
+                    val, pos, _ = f_in(prt)
+                    self_ok = same_vals([val], [v]) and pos == len(prt)
+                except Exception:
+                    self_ok = False
+                if not self_ok:
+                    return (f'C19:url:{kinds[i]}-formatted-text-rejected-by-own-filter',
+                            f'wildcard {i} ({kinds[i]}): formatted text {prt!r} is not read back as {v!r} by its own '
+                            f'filter even standing alone; url() raises AssertionError: {ctx}')
+                if texts is not None and texts[i] != prt:
+                    return (f'C19:url:{kinds[i]}-text-changes-neighbour-match',
+                            f'canonical text of the {kinds[i]} wildcard ({texts[i]!r} -> {prt!r}) is read differently in '
+                            f'front of the literal that follows it; url() refuses it (AssertionError): {ctx}')
             if style == 'alone' and texts is not None and texts[i] == '':
                 return ('C19:url:empty-match-filter',
                         f'wildcard {i} ({kinds[i]}) matched the empty text; url() asserts a non-empty match: {ctx}')
